@@ -1333,6 +1333,19 @@ class Engine(object):
         if self._schema_updated:
           self.assert_schema_consistent()
 
+      # If needed, rebuild dependencies for trigger formulas.
+      self._maybe_update_trigger_dependencies()
+
+      # Note that recalculations and auto-removals get included after processing all useractions.
+      self._bring_all_up_to_date()
+
+      # Apply any triggered record removals. If anything does get removed, recalculate what's needed.
+      while self.docmodel.apply_auto_removes():
+        self._bring_all_up_to_date()
+
+      self.out_actions.flush_calc_changes()
+      self.out_actions.check_sanity()
+
     except Exception as e:
       # Save full exception info, so that we can rethrow accurately even if undo also fails.
       exc_info = sys.exc_info()
@@ -1340,6 +1353,12 @@ class Engine(object):
       # consistent internally as well as with the clients and database outside of the sandbox
       # (which won't see any changes in case of an error).
       log.info("Failed to apply useractions; reverting: %r", e)
+      try:
+        # Changes to values collected so far (e.g. of a data column being turned into a formula
+        # column) are part of what needs reverting.
+        self.out_actions.flush_calc_changes()
+      except Exception:
+        log.error("Error flushing changes before revert: %s", traceback.format_exc())
       self._undo_to_checkpoint(checkpoint)
 
       # Check schema consistency again. If this fails, something is really wrong (we tried to go
@@ -1349,24 +1368,36 @@ class Engine(object):
           self.assert_schema_consistent()
       except Exception:
         log.error("Inconsistent schema after revert on failure: %s", traceback.format_exc())
+      self._recalculate_after_revert()
       raise
 
-    # If needed, rebuild dependencies for trigger formulas.
-    self._maybe_update_trigger_dependencies()
-
-    # Note that recalculations and auto-removals get included after processing all useractions.
-    self._bring_all_up_to_date()
-
-    # Apply any triggered record removals. If anything does get removed, recalculate what's needed.
-    while self.docmodel.apply_auto_removes():
-      self._bring_all_up_to_date()
-
-    self.out_actions.flush_calc_changes()
-    self.out_actions.check_sanity()
     self._user = None
     self._request_responses = {}
     self._cached_request_keys = set()
     return self.out_actions
+
+  def _recalculate_after_revert(self):
+    """
+    After reverting a failed bundle, the reverted doc actions leave formula cells invalidated (or
+    holding values computed before the failure). Bring them back up to date, so that the document
+    is as it was before the call and the next bundle doesn't report those cells as changes.
+    """
+    try:
+      self.docmodel.clear_auto_removes()
+      # Nothing that got reverted should cause trigger formulas to recalculate.
+      for node in list(self.recompute_map):
+        table = self.tables.get(node.table_id)
+        col = table.all_columns.get(node.col_id) if table else None
+        if col is None or not col.is_formula():
+          self.recompute_map.pop(node)
+      self._maybe_update_trigger_dependencies()
+      self._bring_all_up_to_date()
+    except Exception:
+      log.error("Error recalculating after revert on failure: %s", traceback.format_exc())
+    finally:
+      # The outside world sees none of this; forget any changes collected.
+      self.out_actions = action_obj.ActionGroup()
+      self._user = None
 
   def acl_split(self, action_group):
     """
